@@ -57,6 +57,20 @@ type e1cfg struct {
 	// instead of all lists over the pool
 	setup  [][]string
 	blocks [][]string
+	// pending search: the state key also tells whether a block was committed after the last pool admission (so that a
+	// commit that does not touch the pool — even an empty one, which would otherwise merge — is expanded), and empty
+	// blocks do not count for the height
+	sinceAdd bool
+}
+
+// pendingCfg: the mempool's memory of PENDING spends (key-image cache, nonce reservations in the check state) is reset by
+// every CommitBlock and rebuilt by the post-commit recheck; it must survive commits that do not touch the pool. Letters:
+// AddTx of two conflicting spends (s1, s1x), a two-input spend overlapping them (s12), two transfers with the same nonce
+// (a0, a0x) and the next one (a1); commits that leave the pool alone: the EMPTY block, a block with an unrelated account
+// transaction only (cureCoin: B -> D), a block with an unrelated confidential spend only (s2); BlockFromMempool; Restart.
+func pendingCfg(name string, trie bool, depth int) e1cfg {
+	return e1cfg{name: name, trie: trie, depth: depth, sinceAdd: true, pool: []string{"s1", "s1x", "s12", "a0", "a0x", "a1"},
+		blocks: [][]string{{}, {"cureCoin"}, {"s2"}}}
 }
 
 // kindsCfg: for every account-based transaction kind k (families x0 = exact next nonce, x1 = next+1, x5 = next+5) the
@@ -84,6 +98,7 @@ func e1configs(quick bool) []e1cfg {
 			// nonces live in the account state, whose two storage modes are different code: both per-kind searches also in trie mode
 			kindsCfg("trie/kinds", true, 2),
 			failCfg("trie/failing", true, 2),
+			pendingCfg("flat/pending", false, 3), // AddTx(x); commit that leaves the pool alone; AddTx(conflicting y)
 		}
 	}
 	return []e1cfg{
@@ -97,6 +112,8 @@ func e1configs(quick bool) []e1cfg {
 		kindsCfg("trie/kinds", true, 2),
 		failCfg("flat/failing", false, 4),
 		failCfg("trie/failing", true, 3),
+		pendingCfg("flat/pending", false, 6),
+		pendingCfg("trie/pending", true, 4),
 	}
 }
 
@@ -207,6 +224,7 @@ func execHistory1(cat *catalogue, cfg *e1cfg, ops []e1op, hist []int) (out e1out
 		}
 	}
 	viol := func(key, what string) { out.Viol = append(out.Viol, [2]string{key, what}) }
+	commitSinceAdd := false // a block was committed after the last pool admission
 	for i, oi := range hist {
 		op := ops[oi]
 		last := i == len(hist)-1
@@ -218,6 +236,9 @@ func execHistory1(cat *catalogue, cfg *e1cfg, ops []e1op, hist []int) (out e1out
 		case opAdd:
 			ti := cat.get(op.txs[0])
 			err := catchErr(func() error { return w.c.Mempool().AddTx("", ti.decode()) })
+			if err == nil {
+				commitSinceAdd = false
+			}
 			if last {
 				if err != nil {
 					out.Last = "refused: " + err.Error()
@@ -234,6 +255,7 @@ func execHistory1(cat *catalogue, cfg *e1cfg, ops []e1op, hist []int) (out e1out
 			}
 			w.c, w.r = c2, c2.Attached()
 			w.restarted = true
+			commitSinceAdd = false // the pool is empty again
 			if last {
 				out.Last = "restarted"
 			}
@@ -267,6 +289,7 @@ func execHistory1(cat *catalogue, cfg *e1cfg, ops []e1op, hist []int) (out e1out
 			if vb != nil {
 				cOK, _ := w.commitEverywhere(vb, vparts)
 				committed = true
+				commitSinceAdd = true
 				if last && cOK {
 					for _, rc := range w.c.Receipts(w.c.Height()) {
 						if rc.Status == types.ReceiptStatusFailed {
@@ -323,15 +346,23 @@ func execHistory1(cat *catalogue, cfg *e1cfg, ops []e1op, hist []int) (out e1out
 	}
 	// canonical state
 	var committed []string
+	height := w.c.Height()
 	for h := uint64(2); h <= w.c.Height(); h++ {
-		for _, tx := range w.c.LoadBlock(h).Data.Txs {
+		txs := w.c.LoadBlock(h).Data.Txs
+		if len(txs) == 0 && cfg.sinceAdd {
+			height-- // empty blocks change nothing but the height: without this every one of them would be a new state
+		}
+		for _, tx := range txs {
 			committed = append(committed, cat.name(tx.Hash()))
 		}
 	}
 	sort.Strings(committed)
 	good, utxo, future, cache, kimgs := w.poolView()
-	out.Key = fmt.Sprintf("h%d|%s|r%v|g%s|u%s|f%s|c%s|k%d", w.c.Height(), strings.Join(committed, ","), w.restarted,
+	out.Key = fmt.Sprintf("h%d|%s|r%v|g%s|u%s|f%s|c%s|k%d", height, strings.Join(committed, ","), w.restarted,
 		strings.Join(good, ","), strings.Join(utxo, ","), strings.Join(future, ","), strings.Join(cache, ","), kimgs)
+	if cfg.sinceAdd && commitSinceAdd && len(good)+len(utxo)+len(future) > 0 {
+		out.Key += "|commit-after-last-admission"
+	}
 	return out, w.restarted
 }
 
